@@ -441,16 +441,19 @@ class yanny(OrderedDict):
         try:
             var_type = cache[variable]
         except KeyError:
-            defl = [x for x in self._symbols['struct']
-                    if x.find(structure.lower()) > 0]
-            defu = [x for x in self._symbols['struct']
-                    if x.find(structure.upper()) > 0]
-            if len(defl) != 1 and len(defu) != 1:
+            #
+            # The definition of a structure is the typedef that ends in
+            # '} NAME;'.  The name may also appear elsewhere in that or in
+            # other typedefs (as part of a longer name, as a column name).
+            #
+            namere = re.compile(r'\}\s*(\w+)\s*;\s*$')
+            definition = list()
+            for x in self._symbols['struct']:
+                m = namere.search(x)
+                if m is not None and m.group(1).upper() == structure.upper():
+                    definition.append(x)
+            if len(definition) != 1:
                 return None
-            elif len(defl) == 1:
-                definition = defl
-            else:
-                definition = defu
             typere = re.compile(
                 r'(\S+)\s+{0}([\[<].*[\]>]|);'.format(variable))
             (typ, array) = typere.search(definition[0]).groups()
